@@ -59,6 +59,7 @@ def correspondence(ctx):
     ctx.extra["option_sets_per_row"] = len(opts)
     S.check_real_rows(ctx, rows, opts, "C08")
     S.check_real_rows(ctx, [None], S.gen_world_options(rng, ctx.budget(6, 40)), "C08")  # the world aggregate
+    S.check_country_inputs(ctx, S.country_rows(ctx))
 
 
 def search(ctx):
